@@ -311,6 +311,19 @@ class Check(CheckBase):
             run.prove("connect:supported:handshake-text", z3.BoolVal(writes == ["v\r"] * nv + ["CU,10,1\r", "QT\r"]), info={"written": writes})
         else:
             run.prove("connect:unsupported:nothing-beyond-the-version-probe", z3.BoolVal(writes == ["v\r"] * nv), info={"written": writes})
+            # history: the refused object is asked again (a retry button) and then used.  A board with unsupported firmware
+            # must still not be reported "True with no error" and must still receive nothing beyond the version probes.
+            try:
+                res2 = obj.connect()
+                sent2 = obj.command("SP,1")
+            except Exception as ex:
+                run.prove("connect:unsupported:retry:no-exception", z3.BoolVal(False), info={"raised": repr(ex)[:200]})
+                return
+            writes2 = [w.concrete_str() if w.is_concrete() else "?" for p in ports for w in p.writes]
+            run.prove("connect:unsupported:retry-is-not-True-without-error", z3.Or(supported, z3.BoolVal(not (res2 is True and obj.err is None))),
+                      info={"second_connect": repr(res2), "err": str(obj.err)[:120]})
+            run.prove("connect:unsupported:retry:nothing-beyond-version-probes", z3.Or(supported, z3.BoolVal(all(w == "v\r" for w in writes2) and sent2 is False)),
+                      info={"written": writes2, "command_returned": repr(sent2)})
 
     # ------------------------------------------------------------------------------------------------
     def replay(self, cex):
@@ -456,6 +469,16 @@ class Check(CheckBase):
                             return desc
                     else:
                         if not (res is False and obj.err is not None and writes == ["v\r"] * (vidx + 1)):
+                            return desc
+                        try:
+                            res2 = obj.connect()
+                            sent2 = obj.command("SP,1")
+                        except Exception as ex:
+                            desc["retry_raised"] = repr(ex)
+                            return desc
+                        writes2 = [w.concrete_str() for p in ports for w in p.writes]
+                        if (res2 is True and obj.err is None) or sent2 is not False or not all(w == "v\r" for w in writes2):
+                            desc.update({"second_connect": res2, "err_after_retry": obj.err, "command_returned": sent2, "written_after_retry": writes2})
                             return desc
             return None
         finally:
